@@ -360,15 +360,15 @@ Proof.
   destruct (core_fields _ _ Hc) as (Hf & Hn & Hr).
   rewrite <- !(cg_counts_core h1 h2 _ _ Hc), <- Hn.
   match goal with |- context [if ?c <? h_cnt h1 then _ else _] => destruct (c <? h_cnt h1); [done|] end.
-  assert (Hs0 : lsim (h_res h1, h_from h1, h_cnt h1, h_lvl h1) (h_res h2, h_from h2, h_cnt h2, h_lvl h2)).
-  { unfold lsim; cbn. by rewrite Hf, Hn, Hr. }
+  assert (Hs0 : lsim (h_res h1, h_from h1, h_cnt h1, h_lvl h1) (h_res h2, h_from h2, h_cnt h1, h_lvl h2)).
+  { unfold lsim; cbn. by rewrite Hf, Hr. }
   set (s1 := cg_prefer_loop t o1 h1 pref _) in *. set (s2 := cg_prefer_loop t o2 h2 pref _).
   assert (Hs1 : s1.2 = 0%N).
   { destruct (s1.1.2 <=? 0); [by rewrite commit_lvl in Hl|].
     eapply cg_use_usable_mono; [|exact Hl].
     pose proof (cg_prefer_loop_grow o1 h1 pref (h_res h1, h_from h1, h_cnt h1, h_lvl h1)) as Hg. cbn [snd] in Hg.
     fold s1 in Hg. lia. }
-  pose proof (cg_prefer_loop_sim h1 h2 pref Hc _ _ Hs0 Hs1) as Hs. fold s1 s2 in Hs.
+  pose proof (cg_prefer_loop_sim h1 h2 pref Hc _ _ Hs0 Hs1) as Hs. change (lsim s1 s2) in Hs.
   assert (Hcnt : s2.1.2 = s1.1.2) by (unfold lsim in Hs; by rewrite Hs).
   rewrite Hcnt. destruct (s1.1.2 <=? 0); [by apply commit_core|].
   by apply cg_use_usable_sim.
@@ -482,3 +482,96 @@ Proof.
   destruct (core_fields _ _ Hc) as (-> & -> & ->). done.
 Qed.
 End sim.
+
+(* ================================================================ instantiation: the Go comparators *)
+(* [res] is a permutation of [l], and a sorted one for the comparator "kless on keys" (no element
+   is less than its predecessor) whenever [l] is forced for that comparator *)
+Definition sorted_by {A K} (key : A -> K) (kless : K -> K -> bool) (l res : list A) : Prop :=
+  res ≡ₚ l ∧ ((sort_by key kless l).2 = 0%N -> Sorted (λ a b, kless (key b) (key a) = false) res).
+
+(* g returns sorted permutations for the very comparator f sorts with (f l = sort_by key kless l) *)
+Definition same_comparator_sorted {A} (f g : list A -> list A * N) : Prop :=
+  ∀ l, ∃ (K : Type) (key : A -> K) (kless : K -> K -> bool), f l = sort_by key kless l ∧ sorted_by key kless l (g l).1.
+
+Definition valid_sorter (t : topo) (p : prio) (o2 : orders) : Prop :=
+  (∀ h, same_comparator_sorted (go_pkgs t p h) (o_pkgs o2 h)) ∧
+  (∀ h, same_comparator_sorted (go_cores t p h) (o_cores o2 h)) ∧
+  (∀ h, same_comparator_sorted (go_threads t p h) (o_threads o2 h)) ∧
+  (∀ h, same_comparator_sorted (go_clusters t h) (o_clusters o2 h)) ∧
+  (∀ h u, same_comparator_sorted (go_cgprefer t h u) (o_cgprefer o2 h u)) ∧
+  (∀ h pr, same_comparator_sorted (go_cgusable t h pr) (o_cgusable o2 h pr)).
+
+Lemma forcedb_deco {A K} (key : A -> K) (kless : K -> K -> bool) (s : list (A * K)) :
+  Forall (λ q, q.2 = key q.1) s ->
+  forcedb (λ a b : A * K, kless a.2 b.2) s = forcedb (λ a b, kless (key a) (key b)) (map fst s).
+Proof.
+  induction 1 as [|q s Hq Hs IH]; cbn [forcedb map]; [done|]. rewrite IH. f_equal.
+  clear IH. induction Hs as [|q' s' Hq' Hs' IH]; cbn [forallb map]; [done|].
+  rewrite IH. by rewrite Hq, Hq'.
+Qed.
+
+Lemma sort_by_forced_unique {A K} (key : A -> K) kless l res :
+  (sort_by key kless l).2 = 0%N -> sorted_by key kless l res -> res = (sort_by key kless l).1.
+Proof.
+  intros Hl [Hperm Hsorted]. specialize (Hsorted Hl).
+  pose proof (sort_by_perm key kless l) as Hp.
+  unfold sort_by in *. cbn [fst snd] in *.
+  set (s := isort _ (map _ l)) in *.
+  assert (Hf : forcedb (λ a b : A * K, kless a.2 b.2) s = true).
+  { unfold level_of in Hl. destruct (forcedb _ s); [done|]. by destruct (_ <=? _)%nat. }
+  rewrite (forcedb_deco key kless) in Hf.
+  2: { apply Forall_forall. intros q Hq. unfold s in Hq. rewrite isort_perm in Hq.
+       apply elem_of_list_fmap in Hq as (a & -> & _). done. }
+  apply (sorted_perm_unique (λ a b, kless (key a) (key b))); [done| |done].
+  by rewrite Hperm, Hp.
+Qed.
+
+Lemma valid_sorter_osim t p o2 : valid_sorter t p o2 -> osim (go_orders t p) o2.
+Proof.
+  intros (V1 & V2 & V3 & V4 & V5 & V6).
+  assert (G : ∀ {A} (f1 f2 g : list A -> list A * N), (∀ l, f1 l = f2 l) -> same_comparator_sorted f2 g -> agree f1 g).
+  { intros A f1 f2 g Heq Hv l Hl. destruct (Hv l) as (K & key & kless & Hf & Hs).
+    rewrite Heq in Hl |- *. rewrite Hf in Hl |- *. by apply sort_by_forced_unique. }
+  repeat split.
+  - intros h1 h2 Hc. eapply G; [|apply V1]. intros l. done.
+  - intros h1 h2 Hc. eapply G; [|apply V2]. intros l. done.
+  - intros h1 h2 Hc. eapply G; [|apply (V3 h2)]. intros l.
+    destruct h1, h2. injection Hc as -> -> ->. done.
+  - intros h1 h2 Hc. eapply G; [|apply (V4 h2)]. intros l.
+    destruct h1, h2. injection Hc as -> -> ->. done.
+  - intros h1 h2 u Hc. eapply G; [|apply (V5 h2)]. intros l.
+    destruct h1, h2. injection Hc as -> -> ->. done.
+  - intros h1 h2 pr Hc. eapply G; [|apply (V6 h2)]. intros l.
+    destruct h1, h2. injection Hc as -> -> ->. done.
+Qed.
+
+(* The outcome is a function of (topology, set, count, options) alone whenever every sort of the
+   run is forced (level 0): any order record whose functions return sorted permutations for the
+   Go comparators yields the outcome and remaining set computed with the modelled insertion sort. *)
+Lemma alloc_deterministic_forced t p o2 flags from cnt :
+  valid_sorter t p o2 ->
+  (allocate_cpus t (go_orders t p) p flags from cnt).2 = 0%N ->
+  (allocate_cpus t o2 p flags from cnt).1 = (allocate_cpus t (go_orders t p) p flags from cnt).1.
+Proof. intros Hv. apply alloc_deterministic. by apply valid_sorter_osim. Qed.
+
+(* the hypothesis is satisfiable: the modelled orders themselves are a valid sorter *)
+Lemma sort_by_sorted {A K} (key : A -> K) kless l :
+  (sort_by key kless l).2 = 0%N -> Sorted (λ a b, kless (key b) (key a) = false) (sort_by key kless l).1.
+Proof.
+  intros Hl. unfold sort_by in *. cbn [fst snd] in *.
+  set (s := isort _ (map _ l)) in *.
+  assert (Hf : forcedb (λ a b : A * K, kless a.2 b.2) s = true).
+  { unfold level_of in Hl. destruct (forcedb _ s); [done|]. by destruct (_ <=? _)%nat. }
+  rewrite (forcedb_deco key kless) in Hf.
+  2: { apply Forall_forall. intros q Hq. unfold s in Hq. rewrite isort_perm in Hq.
+       apply elem_of_list_fmap in Hq as (a & -> & _). done. }
+  apply forcedb_spec in Hf. apply StronglySorted_Sorted.
+  induction Hf as [|x r Hr IH Hx]; constructor; [done|].
+  eapply Forall_impl; [exact Hx|]. by intros b [_ ?].
+Qed.
+
+Lemma go_valid_sorter t p : valid_sorter t p (go_orders t p).
+Proof.
+  repeat split; intros; intros l; do 3 eexists; (split; [reflexivity|]);
+    (split; [apply sort_by_perm|apply sort_by_sorted]).
+Qed.
